@@ -84,9 +84,22 @@ def method_obj(m):
     return fl.Threshold(m[1], m[2])
 
 
+def reconfigure(act, m):
+    """the parameters of an activation object that was used before are re-assigned by attribute (public fields)"""
+    if m[0] in ("First", "Last"):
+        act.rules, act.threshold = m[1], m[2]
+    elif m[0] in ("Highest", "Lowest"):
+        act.rules = m[1]
+    elif m[0] == "Threshold":
+        act.comparator, act.threshold = fl.Threshold.Comparator(m[1]), m[2]
+
+
 def apply_case(e, case, keep_state=False):
     rb = e.rule_blocks[0]
-    rb.activation = method_obj(case["method"])
+    if keep_state and case.get("reuse_activation") and type(rb.activation).__name__ == case["method"][0]:
+        reconfigure(rb.activation, case["method"])
+    else:
+        rb.activation = method_obj(case["method"])
     for o in e.output_variables:
         o.fuzzy.clear()
     for i, (rule, rc) in enumerate(zip(rb.rules, case["rules"])):
@@ -330,6 +343,23 @@ def gen_cases(ctx):
                          ["Lowest", rng.randrange(0, n + 1)], ["First", rng.randrange(0, n + 1), rng.choice(thr)],
                          ["Last", rng.randrange(0, n + 1), rng.choice(thr)], ["Threshold", rng.choice(COMPARATORS), rng.choice(thr)]])
         yield {"method": m2, "rules": rules2, "values": vals2, "before": first}, "second-pass"
+    # the same activation OBJECT used twice: first activation, parameters re-assigned by attribute, second activation
+    for _ in range(ctx.scale(1200, 12000)):
+        n = rng.choice([1, 2, 3, 4, 6])
+        k = rng.choice(["First", "Last", "Highest", "Lowest", "Threshold", "Threshold"])
+
+        def params():
+            if k in ("First", "Last"):
+                return [k, rng.randrange(0, n + 1), rng.choice(thr)]
+            if k in ("Highest", "Lowest"):
+                return [k, rng.randrange(0, n + 1)]
+            return [k, rng.choice(COMPARATORS), rng.choice(thr + [0.75])]
+        first = {"method": params(), "rules": flags(rng, n, plain=True), "values": [rng.choice(big[:-1]) for _ in range(n)]}
+        after = spec(first)["rules"]
+        rules2 = [{"enabled": True, "loaded": "full", "prior_degree": after[i][1], "prior_triggered": after[i][0]} for i in range(n)]
+        same_inputs = rng.random() < 0.5
+        yield {"method": params(), "rules": rules2, "values": first["values"] if same_inputs else [rng.choice(big[:-1]) for _ in range(n)],
+               "before": first, "reuse_activation": True}, "second-pass"
     # batches: the vector-incapable methods must reject, General works row by row
     for _ in range(ctx.scale(300, 3000)):
         n = rng.choice([1, 2, 3, 5])
